@@ -214,6 +214,21 @@ def run_values(spec):
             res.violation(f"dumps-raises:{type(e).__name__}", f"{e} for {short(v)}")
             continue
         res.count("byte_compares")
+        if i % 5 == 2:
+            # the stream API writes the very same bytes, however it chops them into write() calls
+            pieces = []
+
+            class _W:
+                def write(self, d):
+                    pieces.append(bytes(d))
+
+            try:
+                execnet.dump(_W(), v)
+                if b"".join(pieces) != refb:
+                    res.violation("dump-stream-bytes-differ-from-v2-format", f"{len(pieces)} writes, {len(b''.join(pieces))} bytes instead of {len(refb)} for {short(v)}")
+            except BaseException as e:  # noqa
+                res.violation(f"dump-raises:{type(e).__name__}", f"{e} for {short(v)}")
+            res.count("dump_stream_compares")
         if b != refb:
             j = next((k for k in range(min(len(b), len(refb))) if b[k] != refb[k]), min(len(b), len(refb)))
             op = refb[max(0, j - 5):j + 5].hex()
